@@ -6,7 +6,7 @@ THEOREMS = ["c06_gate_sound", "c06_identity_real", "c06_never_denied", "c06_deny
             "c06_cookie_window", "c06_cookie_outside_window_refused", "c06_grace_refuted",
             "c06_basic_only_without_cookie", "c06_webui_without_password", "c06_csrf",
             "c06_routes", "c06_public_no_effect", "c06_csrf_partial", "c06_csrf_nonget",
-            "c06_get_state_changers", "c06_get_effects_refuted", "c06_old_manage_refuted", "c06_old_register_finish_refuted", "c06_old_tls_refuted"]
+            "c06_get_state_changers", "c06_get_effects_refuted", "c06_old_manage_refuted", "c06_old_register_finish_refuted", "c06_old_auth_finish_refuted", "c06_old_tls_refuted"]
 
 def _field(line, name, default="?"):
     m = re.search(r"\b%s=(\S+)" % name, line or "")
@@ -41,8 +41,9 @@ def run(ctx):
                  "effects are what the response, the two tables, the challenge/push maps and the fake VIP / Okta / STS services can show",
                  "fake Symantec VIP, Okta and AWS STS endpoints; SQLite stands in for PostgreSQL"],
         assumptions=["TLS chain verification is done by crypto/tls; the harness supplies VerifiedChains built from certificates really signed by the state's CA keys",
-                     "the password attempt limiter is configured wide open (limiter_ok = true in every case)"],
-        unproved=["handler steps after admission (parameter validation, storage) are one environment bit per request in the route model; the effects of /webauthn/AuthFinish, /userinfo, the federated callback and Okta poll approval are not provoked by the harness (no provider fake), only their refusal is observed; /u2f/RegisterResponse, /webauthn/RegisterFinish, /u2f/SignResponse, /totp/ValidateNew and /idp/oauth2/token are driven to their effect with genuine material (software token, pending TOTP secret, an authorization code issued by the authorization endpoint)"],
+                     "the password attempt limiter is configured wide open (limiter_ok = true in every case)",
+                     "net.SplitHostPort / net.ParseIP (the TCP peer) and asn1.Unmarshal (the address delegation extension) run in front of the model's netblock arithmetic: the peer travels as IPv4 octets (IPv4-mapped included) / other IPv6 / unparsable, the extension as families of (bytes, bit length)"],
+        unproved=["handler steps after admission (parameter validation, storage) are one environment bit per request in the route model; the effects of /userinfo and the federated callback are not provoked by the harness (no provider fake), only their refusal is observed; /u2f/RegisterResponse, /webauthn/RegisterFinish, /u2f/SignResponse, /webauthn/AuthFinish, /totp/ValidateNew and /idp/oauth2/token are driven to their effect with genuine material (software token, pending TOTP secret, an authorization code issued by the authorization endpoint), the Okta OTP / push / poll handlers through a fake authn API (the owner of one account has approved her push)"],
         model_oracles=[("c06_gate_violating", _gate_key, GATE_WHAT, "CasesC06_gate.idx"),
                        ("c06_route_violating", _route_key, ROUTE_WHAT, "CasesC06_route.idx"),
                        ("c06_window_gate_violating", _gate_key, GATE_WHAT, "CasesC06_wgate.idx"),
